@@ -375,6 +375,13 @@ fn main() {
     // only failures that speak about this property count ("" = any)
     let prop = args.get(5).cloned().unwrap_or_default();
     let relevant = |msg: &str| -> bool { prop.is_empty() || msg.split(']').next().map(|t| t.trim_start_matches('[').split(' ').any(|x| x == prop)).unwrap_or(false) };
+    if matches!(prop.as_str(), "C06" | "C16" | "C20") {
+        // scenarios with their own instrumented key/value types (drop counters, hash counters, injected panics)
+        match extra::search(&prop, seed, budget) {
+            Some(msg) => { println!("{{\"found\": true, \"scenario\": \"extra::{}\", \"seed\": {}, \"ops\": [], \"max_size\": 0, \"capacity\": 0, \"hasher\": \"identity\", \"message\": {:?}}}", prop, seed, msg); std::process::exit(1); }
+            None => { println!("{{\"found\": false, \"scenario\": \"extra::{}\"}}", prop); std::process::exit(0); }
+        }
+    }
     let e0 = entry_size(&0u16, &Val { heap: 0, id: 0 });
     let mut rng = Rng(seed.wrapping_mul(0x9E3779B97F4A7C15) | 1);
     let t0 = Instant::now();
@@ -406,4 +413,179 @@ fn main() {
         }
     }
     println!("{{\"found\": false, \"sequences_tried\": {}}}", tried);
+}
+
+// =====================================================================================================================
+// Extra bounded scenarios for properties the operation/oracle search above cannot observe: ownership (C06),
+// panics in user code (C16), hashing work (C20).  Same role: bounded native stand-in when the verifier is undecided.
+// =====================================================================================================================
+mod extra {
+    use super::Rng;
+    use lru_mem::{HeapSize, LruCache};
+    use std::cell::{Cell, RefCell};
+    use std::collections::HashMap;
+    use std::hash::{BuildHasherDefault, Hash, Hasher};
+    use std::panic::{catch_unwind, AssertUnwindSafe};
+
+    thread_local! {
+        static DROPS: RefCell<HashMap<u32, u32>> = RefCell::new(HashMap::new());
+        static HASHES: Cell<u32> = Cell::new(0);
+        static PANIC_AT: Cell<i64> = Cell::new(-1);
+    }
+    #[derive(Debug)]
+    pub struct DVal { id: u32, heap: usize }
+    impl Drop for DVal { fn drop(&mut self) { DROPS.with(|d| *d.borrow_mut().entry(self.id).or_insert(0) += 1); } }
+    impl HeapSize for DVal { fn heap_size(&self) -> usize { self.heap } }
+    impl Clone for DVal { fn clone(&self) -> DVal { DVal { id: self.id + 1_000_000, heap: self.heap } } }
+
+    #[derive(Debug, Clone)]
+    pub struct CKey(u16);
+    impl HeapSize for CKey { fn heap_size(&self) -> usize { 0 } }
+    impl PartialEq for CKey { fn eq(&self, o: &CKey) -> bool { self.0 == o.0 } }
+    impl Eq for CKey {}
+    impl Hash for CKey {
+        fn hash<H: Hasher>(&self, h: &mut H) {
+            let n = HASHES.with(|c| { c.set(c.get() + 1); c.get() });
+            if PANIC_AT.with(|p| p.get()) == n as i64 { PANIC_AT.with(|p| p.set(-1)); panic!("injected Hash panic"); }
+            h.write_u16(self.0)
+        }
+    }
+    #[derive(Default, Clone)]
+    pub struct H16(u64);
+    impl Hasher for H16 { fn finish(&self) -> u64 { self.0 } fn write(&mut self, b: &[u8]) { for x in b { self.0 = self.0 * 31 + *x as u64; } } }
+    type BH = BuildHasherDefault<H16>;
+
+    /// C06: every value moved into the cache is dropped exactly once, or handed back exactly once (and then dropped by us)
+    pub fn c06(rng: &mut Rng) -> Result<(), String> {
+        DROPS.with(|d| d.borrow_mut().clear());
+        let e0 = lru_mem::entry_size(&0u16, &DVal { id: 0, heap: 0 });
+        DROPS.with(|d| d.borrow_mut().clear());
+        let mut created: Vec<u32> = vec![];
+        let mut log = vec![];
+        {
+            let max = (1 + rng.below(4) as usize) * (e0 + 4);
+            let mut c: LruCache<u16, DVal, BH> = LruCache::with_capacity_and_hasher(max, rng.below(4) as usize, BH::default());
+            let mut next = 1u32;
+            for _ in 0..(1 + rng.below(14)) {
+                let k = rng.below(5) as u16;
+                let op = rng.below(14);
+                log.push(format!("{}:{}", op, k));
+                match op {
+                    0..=3 => { created.push(next); let _ = c.insert(k, DVal { id: next, heap: rng.below(6) as usize }); next += 1; }
+                    4 => { created.push(next); let _ = c.try_insert(k, DVal { id: next, heap: rng.below(6) as usize }); next += 1; }
+                    5 => { let _ = c.remove(&k); }
+                    6 => { let _ = c.remove_lru(); }
+                    7 => { let _ = c.remove_mru(); }
+                    8 => { let g = rng.below(40) as usize; let _ = c.mutate(&k, |v| v.heap = g); }
+                    9 => { c.set_max_size(rng.below((4 * (e0 + 6)) as u64) as usize); }
+                    10 => { let m = rng.next() as u16; c.retain(|k, _| (m >> (k % 16)) & 1 == 1); }
+                    11 => { c.clear(); }
+                    12 => { let mut d = c.drain(); if rng.below(2) == 0 { let _ = d.next(); } if rng.below(2) == 0 { let _ = d.next_back(); } }
+                    _ => { if rng.below(2) == 0 { c.reserve(rng.below(8) as usize); } else { c.shrink_to_fit(); } }
+                }
+            }
+            if rng.below(3) == 0 {
+                let mut it = c.into_iter();
+                if rng.below(2) == 0 { let _ = it.next_back(); }
+                if rng.below(2) == 0 { let _ = it.next(); }
+            }
+        }
+        let bad: Vec<(u32, u32)> = created.iter().map(|id| (*id, DROPS.with(|d| *d.borrow().get(id).unwrap_or(&0)))).filter(|(_, n)| *n != 1).collect();
+        if bad.is_empty() { Ok(()) } else { Err(format!("[C06] values (id, number of drops) {:?} were not dropped exactly once; operations (op:key) {:?}", bad, log)) }
+    }
+
+    fn coherent(c: &LruCache<CKey, u32, BH>) -> Result<(), String> {
+        let fwd: Vec<u16> = c.iter().map(|(k, _)| k.0).collect();
+        let mut bwd: Vec<u16> = c.iter().rev().map(|(k, _)| k.0).collect();
+        bwd.reverse();
+        if fwd.len() != c.len() { return Err(format!("len() = {} but traversal yields {} entries", c.len(), fwd.len())); }
+        if fwd != bwd { return Err("forward and reverse traversal do not mirror".into()); }
+        for k in &fwd { if !c.contains(&CKey(*k)) { return Err(format!("traversed key {} is not found by a lookup", k)); } }
+        let sum: usize = c.iter().map(|(k, v)| lru_mem::entry_size(k, v)).sum();
+        if sum != c.current_size() { return Err(format!("current_size() = {} but the remaining entries sum to {}", c.current_size(), sum)); }
+        Ok(())
+    }
+
+    /// C16: a Hash panic injected at the n-th hash of one operation; afterwards the cache must be coherent and usable
+    pub fn c16(rng: &mut Rng) -> Result<(), String> {
+        let n = 1 + rng.below(6) as u16;
+        let cap = [0usize, n as usize, 28][rng.below(3) as usize];
+        let mut c: LruCache<CKey, u32, BH> = LruCache::with_capacity_and_hasher(usize::MAX, cap, BH::default());
+        PANIC_AT.with(|p| p.set(-1));
+        for k in 0..n { c.insert(CKey(k), k as u32).unwrap(); }
+        let op = rng.below(8);
+        let at = 1 + rng.below(n as u64 + 2) as i64;
+        HASHES.with(|h| h.set(0));
+        PANIC_AT.with(|p| p.set(at));
+        let k = rng.below(n as u64 + 1) as u16;
+        let r = catch_unwind(AssertUnwindSafe(|| match op {
+            0 => c.reserve(100),
+            1 => c.shrink_to_fit(),
+            2 => { let _ = c.insert(CKey(100 + k), 7); }
+            3 => { let _ = c.remove(&CKey(k)); }
+            4 => { let _ = c.get(&CKey(k)); }
+            5 => { let d = c.clone(); drop(d); }
+            6 => { c.set_max_size(lru_mem::entry_size(&CKey(0), &0u32)); }
+            _ => { let _ = c.mutate(&CKey(k), |v| *v += 1); }
+        }));
+        PANIC_AT.with(|p| p.set(-1));
+        if r.is_ok() { return Ok(()); }       // the armed call was not reached: nothing to judge
+        coherent(&c).map_err(|m| format!("[C16] after a Hash panic at hash #{} inside operation {} (n = {}, capacity {}): {}", at, op, n, cap, m))?;
+        let _ = c.insert(CKey(500), 1);
+        let _ = c.remove(&CKey(0));
+        coherent(&c).map_err(|m| format!("[C16] using the cache after a Hash panic (hash #{}, operation {}): {}", at, op, m))
+    }
+
+    /// C20: at most two key hashes per operation plus one per departing entry (plus each held entry once for a rebuild)
+    pub fn c20(rng: &mut Rng) -> Result<(), String> {
+        let e0 = lru_mem::entry_size(&CKey(0), &0u32);
+        let n = rng.below(20) as u16;
+        let mut c: LruCache<CKey, u32, BH> = LruCache::with_capacity_and_hasher(usize::MAX, [0usize, 3, 28][rng.below(3) as usize], BH::default());
+        PANIC_AT.with(|p| p.set(-1));
+        for k in 0..n { c.insert(CKey(k), 0).unwrap(); }
+        for _ in 0..6 {
+            let (len0, cap0) = (c.len(), c.capacity());
+            HASHES.with(|h| h.set(0));
+            let k = rng.below(n as u64 + 2) as u16;
+            let op = rng.below(16);
+            let mut rebuild_allowed = false;
+            let mut zero = false;
+            match op {
+                0 => { let _ = c.insert(CKey(k), 1); }
+                1 => { let _ = c.try_insert(CKey(k), 1); }
+                2 => { let _ = c.get(&CKey(k)); }
+                3 => { let _ = c.peek(&CKey(k)); }
+                4 => { c.touch(&CKey(k)); }
+                5 => { let _ = c.remove(&CKey(k)); }
+                6 => { let _ = c.remove_lru(); }
+                7 => { let _ = c.mutate(&CKey(k), |v| *v += 1); }
+                8 => { c.set_max_size(rng.below(1 + len0 as u64) as usize * e0); }
+                9 => { let _ = c.contains(&CKey(k)); }
+                10 => { let _ = c.peek_lru(); let _ = c.peek_mru(); zero = true; }
+                11 => { let _ = c.iter().count(); let _ = c.keys().rev().count(); zero = true; }
+                12 => { c.reserve(rng.below(40) as usize); rebuild_allowed = true; }
+                13 => { c.shrink_to(rng.below(10) as usize); rebuild_allowed = true; }
+                14 => { let d = c.clone(); std::mem::forget(d); rebuild_allowed = true; }
+                _ => { let m = rng.next() as u16; c.retain(|k, _| (m >> (k.0 % 16)) & 1 == 1); }
+            }
+            let hashes = HASHES.with(|h| h.get()) as usize;
+            let departed = if matches!(op, 0 | 1) { (len0 + 1).saturating_sub(c.len()) } else { len0.saturating_sub(c.len()) };
+            let grew = c.capacity() > cap0 && matches!(op, 0 | 1);
+            let bound = 2 + departed + if rebuild_allowed || grew { len0 } else { 0 };
+            if zero && hashes != 0 { return Err(format!("[C20] operation {} (a traversal or LRU/MRU peek) computed {} hashes", op, hashes)); }
+            if hashes > bound { return Err(format!("[C20] operation {} on {} entries computed {} hashes; bound 2 + {} departures{} = {}", op, len0, hashes, departed, if rebuild_allowed || grew { " + len (rebuild)" } else { "" }, bound)); }
+            c.set_max_size(usize::MAX);
+        }
+        Ok(())
+    }
+
+    pub fn search(prop: &str, seed: u64, budget_ms: u64) -> Option<String> {
+        let mut rng = Rng(seed.wrapping_mul(0x9E3779B97F4A7C15) | 1);
+        let t0 = std::time::Instant::now();
+        while t0.elapsed() < std::time::Duration::from_millis(budget_ms) {
+            let r = match prop { "C06" => c06(&mut rng), "C16" => c16(&mut rng), "C20" => c20(&mut rng), _ => return None };
+            if let Err(m) = r { return Some(m); }
+        }
+        None
+    }
 }
